@@ -529,16 +529,40 @@ func (w *worker) record(r pathResult) {
 			}()
 			v = m.violation
 		}
-		if v != nil && len(res.Violations) < 24 {
-			same := 0
+		if v != nil && len(res.Violations) < 40 {
+			// keep up to six witnesses per assertion, from different configurations (the
+			// leading choices): a later one may replay natively where the first does
+			// not (e.g. a TLS path, or a fault kind whose effect differs under a stub)
+			sig := func(ns []WitnessVal) string {
+				s, k := "", 0
+				for _, n := range ns {
+					if n.Kind == "choose" {
+						s += fmt.Sprintf("%d,", n.Value)
+						if k++; k == 5 {
+							break
+						}
+					}
+				}
+				return s
+			}
+			var cur []WitnessVal
+			for _, n := range m.nondets {
+				val := uint64(0)
+				if v.Model != nil {
+					val = v.Model[n.Name]
+				}
+				cur = append(cur, WitnessVal{Name: n.Name, Kind: n.Kind, Value: val, N: n.Extra})
+			}
+			same, dup := 0, false
 			for _, o := range res.Violations {
 				if o.Kind == v.Kind && o.ID == v.ID && o.Detail == v.Detail {
 					same++
+					if same >= 2 && sig(o.Nondets) == sig(cur) {
+						dup = true
+					}
 				}
 			}
-			// keep up to three witnesses per assertion: a later one may replay
-			// natively where the first does not (e.g. a TLS path)
-			if same < 3 {
+			if same < 6 && !dup {
 				out := ViolationOut{Kind: v.Kind, ID: v.ID, Detail: v.Detail, Params: e.params, Harness: res.Harness, Trace: m.trace}
 				for _, n := range m.nondets {
 					val := uint64(0)
